@@ -35,7 +35,7 @@ import (
 
 const c28KeyHeader = "header-threshold-no-quorum-intersection"
 
-const c28Rule = "thresholds measured by search for the least accepted signer count (full scan of k for N <= 64, binary search plus boundary and spot checks above): block validator and bookkeeper multisig address N = 1..10 quick / 1..16 thorough (16 = MULTI_SIG_MAX_PUBKEY_SIZE) with real signatures; getCommitConsensus pure counting for every N in 4..500 quick / 4..2000 thorough (every C for N <= 64, C in {1, mid, max} above; four message shapes) and rapid-drawn N < 2^20 (log-uniform, biased to 3j+1 boundaries); commitDone through a real BlockPool with genuine signatures for every (N,C), N <= 10 quick / 16 thorough (commit-message path and endorse-signature fallback path); header check on VBFT ledgers for every (N,C), 7 <= N <= 10 quick / 16 thorough, every listing size L and signature count k; the quantifier over all naturals N, C is NOT exhausted — this is bounded exploration; non-trivial = a configuration with the largest admissible C (C = (N-1)/3, where the intersection inequality is tight) or a signature-carrying measurement; distinct = different (kind, shape, N, C)"
+const c28Rule = "thresholds measured by search for the least accepted signer count (full scan of k for N <= 64, binary search plus boundary and spot checks above): block validator and bookkeeper multisig address N = 1..10 quick / 1..16 thorough (16 = MULTI_SIG_MAX_PUBKEY_SIZE) with real signatures; getCommitConsensus pure counting for every N in 4..300 quick / 4..2000 thorough (every C for N <= 64, C in {1, mid, max} above; message shapes: one committer naming endorsers, committers only, half / all / the first e committers committing for the EMPTY block, e empty commits for other proposers ahead of the plain ones, e = 1..N-1 for N <= 16 and C+1 above) and rapid-drawn N < 2^20 (log-uniform, biased to 3j+1 boundaries); commitDone through a real BlockPool with genuine signatures for every (N,C), N <= 10 quick / 16 thorough (paths: one commit message, commit messages only, all commits for the empty block, C+1 empty commits for other proposers first, endorse signatures only, every signer endorsing the block and then the empty block of the same proposer, and the reverse order); header check on VBFT ledgers for every (N,C), 7 <= N <= 10 quick / 16 thorough, every listing size L and signature count k; the quantifier over all naturals N, C is NOT exhausted — this is bounded exploration; non-trivial = a configuration with the largest admissible C (C = (N-1)/3, where the intersection inequality is tight) or a signature-carrying measurement; distinct = different (kind, shape, N, C)"
 
 // c28Judge applies the intersection oracle to one measured quorum. It returns "" or the violation.
 func c28Judge(kind string, n, c, q int) string {
@@ -272,7 +272,7 @@ func commitShapes(n, c int) []commitShape {
 			es = append(es, e)
 		}
 	} else {
-		es = []int{c, c + 1, c + 2}
+		es = []int{c + 1}
 	}
 	for _, e := range es {
 		e := e
@@ -397,7 +397,7 @@ func cSample(n int) []int {
 
 func TestC28_CommitCountEnumerated(t *testing.T) {
 	ev := harn.For("C28").Rule(c28Rule)
-	maxN := 500
+	maxN := 300
 	if harn.Thorough() {
 		maxN = 2000
 	}
@@ -427,12 +427,13 @@ func TestC28_CommitCountRandomN(t *testing.T) {
 		max := (n - 1) / 3
 		c := rapid.SampledFrom([]int{1, max, max, rapid.IntRange(1, max).Draw(t, "cAny")}).Draw(t, "C")
 		var sh commitShape
-		if rapid.Bool().Draw(t, "shape") {
-			var only []*vbft.VerifCommitMsg // prefixes of one prebuilt committers-only list
+		if kind := rapid.IntRange(0, 3).Draw(t, "shape"); kind > 0 {
+			// prefixes of one prebuilt committers-only list: plain / all for the empty block / the first C+1 for the empty block
+			var only []*vbft.VerifCommitMsg
 			for j := 2; j <= n; j++ {
-				only = append(only, &vbft.VerifCommitMsg{Committer: uint32(j), BlockProposer: 1, BlockNum: 9})
+				only = append(only, &vbft.VerifCommitMsg{Committer: uint32(j), BlockProposer: 1, BlockNum: 9, CommitForEmpty: kind == 2 || (kind == 3 && j-2 <= c)})
 			}
-			sh = commitShape{"committers-only", func(k int) []*vbft.VerifCommitMsg {
+			sh = commitShape{[]string{"", "committers-only", "committers-only-all-empty", "first-C+1-committers-empty"}[kind], func(k int) []*vbft.VerifCommitMsg {
 				if k < 2 {
 					return nil
 				}
@@ -481,7 +482,9 @@ func TestC28_CommitPoolSigned(t *testing.T) {
 			e := newPoolEnv(n, c)
 			p := e.props[0]
 			signers := append([]uint32{p.proposer}, e.others(p, n-1)...)
-			for _, path := range []string{"commit-msg", "endorse-sigs", "commit-msgs-only"} {
+			foreign := e.props[1 : len(e.props)-1] // the other proposers' proposals (for the shape with empty commits for other proposers)
+			for _, path := range []string{"commit-msg", "endorse-sigs", "commit-msgs-only", "commit-msgs-only-all-empty", "empty-commits-for-other-proposer-first",
+				"endorse-normal-then-empty", "endorse-empty-then-normal", "endorse-empty-only"} {
 				done := func(k int) bool {
 					h := e.newHist(nil)
 					if k >= 1 {
@@ -509,6 +512,58 @@ func TestC28_CommitPoolSigned(t *testing.T) {
 							if err := h.sendCommit(s, e.commitMsg(s, s, p, false, p.hBlock, nil), ""); err != nil {
 								t.Fatalf("genuine commit rejected: %v", err)
 							}
+						}
+					case "commit-msgs-only-all-empty": // k-1 genuine commit-for-empty messages
+						for _, s := range signers[1:max(1, k)] {
+							if err := h.sendCommit(s, e.commitMsg(s, s, p, true, p.hEmpty, nil), ""); err != nil {
+								t.Fatalf("genuine empty commit rejected: %v", err)
+							}
+						}
+					case "empty-commits-for-other-proposer-first":
+						// up to C+1 peers that are NOT among the k signers first commit for the empty block of
+						// another proposer (genuinely), then k-1 plain commits for p
+						// (spread over the other proposers so that none of THEM reaches a quorum: at most Q-2 each)
+						perForeign := (n - (n-1)/3) - 2
+						placed := map[uint32]int{}
+						cnt := 0
+						for i := n - 1; i >= max(1, k) && cnt < c+1; i-- {
+							s := signers[i]
+							for _, f := range foreign {
+								if s != f.proposer && placed[f.proposer] < perForeign {
+									if placed[f.proposer] == 0 {
+										if err := h.sendProposal(f); err != nil {
+											t.Fatalf("genuine proposal rejected: %v", err)
+										}
+									}
+									if err := h.sendCommit(s, e.commitMsg(s, s, f, true, f.hEmpty, nil), ""); err != nil {
+										t.Fatalf("genuine empty commit rejected: %v", err)
+									}
+									placed[f.proposer]++
+									cnt++
+									break
+								}
+							}
+						}
+						for _, s := range signers[1:max(1, k)] {
+							if err := h.sendCommit(s, e.commitMsg(s, s, p, false, p.hBlock, nil), ""); err != nil {
+								t.Fatalf("genuine commit rejected: %v", err)
+							}
+						}
+					case "endorse-normal-then-empty": // every signer endorses p's block and later p's empty block
+						for _, s := range signers[1:max(1, k)] {
+							e.honestEndorse(h, s, p, false)
+						}
+						for _, s := range signers[1:max(1, k)] {
+							e.honestEndorse(h, s, p, true)
+						}
+					case "endorse-empty-then-normal":
+						for _, s := range signers[1:max(1, k)] {
+							e.honestEndorse(h, s, p, true)
+							e.honestEndorse(h, s, p, false)
+						}
+					case "endorse-empty-only":
+						for _, s := range signers[1:max(1, k)] {
+							e.honestEndorse(h, s, p, true)
 						}
 					}
 					P, _, d := h.pool.CommitDone(c31Blk, uint32(c), uint32(n))
